@@ -141,7 +141,7 @@ pub fn run(a: &Args, rep: &mut Reporter) {
         let mut bytes = dev.bytes();
         let extra: Vec<Blob> = run.blobs.iter().map(|(b, _)| b.clone()).collect();
         // damage class
-        let damage = r.usize(4);
+        let damage = r.usize(6);
         let (pcs, blobs) = match E57Reader::new(std::io::Cursor::new(bytes.clone())) {
             Ok(rd) => (rd.pointclouds(), all_blobs(&rd.images(), &extra)),
             Err(_) => {
@@ -186,6 +186,30 @@ pub fn run(a: &Args, rep: &mut Reporter) {
                         cover.hit("damage:blob-header");
                     }
                 }
+            }
+            4 if xml_page > 1 => {
+                // the content of a data page altered and the page RE-SEALED: no checksum error, the failure (if any)
+                // comes later, from what the bytes mean (an out-of-set state, a broken packet header, other values)
+                for _ in 0..(1 + r.usize(3)) {
+                    let p = 1 + r.usize(xml_page - 1);
+                    let off = p * PAGE + r.usize(1020);
+                    bytes[off] = *r.pick(&[0xFFu8, 0x57, 0x03, 0x00, 0x80]);
+                }
+                fc.seal(&mut bytes);
+                cover.hit("damage:content-resealed");
+            }
+            5 if xml_page > 1 => {
+                // one page whose checksum is stored in the wrong byte order (or complemented)
+                let p = 1 + r.usize(xml_page - 1);
+                let c = p * PAGE + 1020;
+                if r.bool() {
+                    bytes[c..c + 4].reverse();
+                } else {
+                    for b in bytes[c..c + 4].iter_mut() {
+                        *b = !*b;
+                    }
+                }
+                cover.hit("damage:checksum-form");
             }
             _ => cover.hit("damage:none"),
         }
